@@ -128,7 +128,7 @@ Ltac fields := cbn [limit maxt value waiters loops tasks started processed stop 
 
 Theorem Inv_step s e s' : Inv s -> step_ev s e = Some s' -> Inv s'.
 Proof.
-  intros [Hn Hl Hv Hc Hm Hs] H. destruct e as [q m|q|q|q|q|q|q|m| |q|q m|q]; cbn [step_ev] in H.
+  intros [Hn Hl Hv Hc Hm Hs] H. destruct e as [q m|q|q|q|q|q|q|m| |q|q m|q|q|q]; cbn [step_ev] in H.
   - (* deliver *)
     destruct (get_loop q (loops s)) as [[q' st p]|] eqn:Eg; [|discriminate]. destruct st; try discriminate.
     destruct (take_msg q (backlog s)) as [[m' b']|]; [|discriminate]. destruct ((m' =? m) && negb p); [|discriminate].
@@ -265,6 +265,16 @@ Proof.
     destruct (get_loop q (loops s)) as [[q' st p]|] eqn:Eg; [|discriminate]. destruct st; try discriminate.
     inversion H; subst; clear H; constructor; fields; try assumption;
       [rewrite names_set_loop; exact Hn | rewrite (slots_set_loop q _ p _ _ Hn Eg); cbn [holds_slot l_st]; lia].
+  - (* pause() on the wire: only the consumer's flag changes *)
+    destruct (get_loop q (loops s)) as [[q' st p]|] eqn:Eg; [|discriminate]. destruct st; try discriminate.
+    destruct (locked s); [|discriminate].
+    inversion H; subst; clear H; constructor; fields; try assumption;
+      [rewrite names_set_loop; exact Hn | rewrite (slots_set_loop q _ true _ _ Hn Eg); cbn [holds_slot l_st]; lia].
+  - (* unpause() of a loop that never waited *)
+    destruct (get_loop q (loops s)) as [[q' st p]|] eqn:Eg; [|discriminate]. destruct st; try discriminate.
+    destruct p; [|discriminate].
+    inversion H; subst; clear H; constructor; fields; try assumption;
+      [rewrite names_set_loop; exact Hn | rewrite (slots_set_loop q _ false _ _ Hn Eg); cbn [holds_slot l_st]; lia].
 Qed.
 
 Theorem Inv_run es : forall s s', Inv s -> run_ev s es = Some s' -> Inv s'.
@@ -446,7 +456,7 @@ Proof. intros Ha Hn. unfold release. apply WInv_wake; cbn [waiters loops upd]; a
 
 Theorem WInv_step s e s' : WInv s -> step_ev s e = Some s' -> WInv s'.
 Proof.
-  intros W H. pose proof W as [Ha Hn Hv]. destruct e as [q m|q|q|q|q|q|q|m| |q|q m|q]; cbn [step_ev] in H.
+  intros W H. pose proof W as [Ha Hn Hv]. destruct e as [q m|q|q|q|q|q|q|m| |q|q m|q|q|q]; cbn [step_ev] in H.
   - destruct (get_loop q (loops s)) as [[q' st p]|] eqn:Eg; [|discriminate]. destruct st; try discriminate.
     destruct (take_msg q (backlog s)) as [[m' b']|]; [|discriminate]. destruct ((m' =? m) && negb p); [|discriminate].
     inversion H; subst; clear H. constructor; cbn [waiters loops value upd]; [|assumption|].
@@ -531,6 +541,18 @@ Proof.
     + intros q0 Hin. apply waiting_set_other; [|apply Ha; exact Hin]. intros ->.
       apply (not_waiting_if _ _ _ Eg); [cbn; discriminate | apply Ha; exact Hin].
     + intros Hw Hp. eapply granted_preserved; [exact Eg | reflexivity | auto].
+  - destruct (get_loop q (loops s)) as [[q' st p]|] eqn:Eg; [|discriminate]. destruct st; try discriminate.
+    destruct (locked s); [|discriminate].
+    inversion H; subst; clear H. constructor; cbn [waiters loops value upd]; [|assumption|].
+    + intros q0 Hin. apply waiting_set_other; [|apply Ha; exact Hin]. intros ->.
+      apply (not_waiting_if _ _ _ Eg); [cbn; discriminate | apply Ha; exact Hin].
+    + intros Hw Hp. eapply granted_preserved; [exact Eg | reflexivity | auto].
+  - destruct (get_loop q (loops s)) as [[q' st p]|] eqn:Eg; [|discriminate]. destruct st; try discriminate.
+    destruct p; [|discriminate].
+    inversion H; subst; clear H. constructor; cbn [waiters loops value upd]; [|assumption|].
+    + intros q0 Hin. apply waiting_set_other; [|apply Ha; exact Hin]. intros ->.
+      apply (not_waiting_if _ _ _ Eg); [cbn; discriminate | apply Ha; exact Hin].
+    + intros Hw Hp. eapply granted_preserved; [exact Eg | reflexivity | auto].
 Qed.
 
 Lemma WInv_init lim mx qs : WInv (init lim mx qs).
@@ -603,3 +625,42 @@ Proof.
   - destruct (locked s); [right | left]; discriminate.
   - destruct (limit_reached s); [right | left]; discriminate.
 Qed.
+
+(* ---- a consumer whose pause() / unpause() are round trips (RabbitMQ's basic.qos) ---- *)
+
+(* pause() on the wire changes nothing but the consumer's flag: whichever way the limiter is when it returns, the loop goes on -
+   it queues up if the limiter is still locked, it takes the slot at once if one has freed meanwhile *)
+Theorem pause_start_keeps_going s q m p s' :
+  get_loop q (loops s) = Some (mkLoop q (LGot m) p) -> step_ev s (EvPauseStart q) = Some s' ->
+  get_loop q (loops s') = Some (mkLoop q (LGot m) true) /\ value s' = value s /\ waiters s' = waiters s /\
+  (forall s2, get_loop q (loops s2) = Some (mkLoop q (LGot m) true) ->
+     step_ev s2 (EvAcquireFast q) <> None \/ step_ev s2 (EvPause q) <> None).
+Proof.
+  intros Hg H. cbn [step_ev] in H. rewrite Hg in H. destruct (locked s); [|discriminate]. inversion H; subst; clear H.
+  cbn [loops value waiters upd]. split; [eapply get_set_same; exact Hg|]. split; [reflexivity|]. split; [reflexivity|].
+  intros s2 Hg2. cbn [step_ev]. rewrite Hg2. destruct (locked s2); [right | left]; discriminate.
+Qed.
+
+(* the loop that took its slot without waiting holds it with the consumer still paused: the un-pause is enabled, and it is the
+   only way back to consumption - a paused consumer is never delivered from (the seeded change C09c skips exactly this step) *)
+Theorem unpause_hold_enabled s q m :
+  get_loop q (loops s) = Some (mkLoop q (LHold m) true) ->
+  exists s', step_ev s (EvUnpauseHold q) = Some s' /\ get_loop q (loops s') = Some (mkLoop q (LHold m) false) /\ value s' = value s.
+Proof.
+  intros Hg. cbn [step_ev]. rewrite Hg. eexists. split; [reflexivity|]. cbn [loops value upd]. split; [eapply get_set_same; exact Hg | reflexivity].
+Qed.
+
+Theorem paused_consumer_never_delivers s q st m :
+  get_loop q (loops s) = Some (mkLoop q st true) -> step_ev s (EvDeliver q m) = None.
+Proof.
+  intros Hg. cbn [step_ev]. rewrite Hg. destruct st; try reflexivity.
+  destruct (take_msg q (backlog s)) as [[m' b']|]; [|reflexivity]. cbn [negb]. rewrite andb_false_r. reflexivity.
+Qed.
+
+(* a slot that frees while pause() is on the wire is taken without waiting, the consumer is un-paused and the message runs *)
+Example suspending_pause_example :
+  exists s, run_ev (init 1 None [1])
+              [EvEnqueue 1 10; EvEnqueue 1 11; EvDeliver 1 10; EvAcquireFast 1; EvSpawn 1; EvDeliver 1 11; EvPauseStart 1;
+               EvTaskDone 10; EvAcquireFast 1; EvUnpauseHold 1; EvSpawn 1; EvTaskDone 11] = Some s
+            /\ started s = 2 /\ processed s = 2 /\ value s = 1 /\ get_loop 1 (loops s) = Some (mkLoop 1 LIdle false).
+Proof. eexists. split; [vm_compute; reflexivity|]. vm_compute. repeat split. Qed.
